@@ -313,6 +313,7 @@ func runWorker(shard, of int, tier string) {
 			}
 		})
 	})
+	part("g", func() { enumG(tier, w.httpCase) })
 	part("f", func() {
 		enumSeq(tier, func(sc *SeqCase) {
 			k := sc.key()
